@@ -307,12 +307,29 @@ func runSeq(rep *hx.Report, rng *hx.Rng, o *hx.Opts, dS3, iS3 bool, faultAt stri
 		}
 		rep.Hit("store:ok")
 		c := w.Login(st.user)
-		c.Cmd("SELECT INBOX")
-		for _, l := range c.Cmd("SEARCH SUBJECT " + st.tok).Untagged {
+		// the message just delivered is the last of its INBOX
+		for _, l := range c.Cmd("SELECT INBOX").Untagged {
+			fl := strings.Fields(l)
+			if len(fl) == 3 && fl[2] == "EXISTS" {
+				fmt.Sscan(fl[1], &st.seq)
+			}
+		}
+		// SEARCH reads the message too: it finds it there, or — when content of the mailbox cannot be read — says so
+		sr := c.Cmd("SEARCH SUBJECT " + st.tok)
+		hit := 0
+		for _, l := range sr.Untagged {
 			fl := strings.Fields(l)
 			if len(fl) == 3 {
-				fmt.Sscan(fl[2], &st.seq)
+				fmt.Sscan(fl[2], &hit)
 			}
+		}
+		switch {
+		case sr.OK() && hit == st.seq:
+			rep.Hit("search:found")
+		case sr.Status() == "NO" && dS3 && !iS3:
+			rep.Hit("search:error-reported")
+		default:
+			rep.Violate("impl-violation", "read-back through SEARCH (Props.C15.read_fault_reported)", fmt.Sprintf("%s: SEARCH SUBJECT %s answered %q / %v; the message is number %d of the mailbox and no read was failed", desc, st.tok, sr.Tagged, sr.Untagged, st.seq), []string{"seq " + name})
 		}
 		c.Close()
 		all = append(all, st)
@@ -371,19 +388,42 @@ func runSeq(rep *hx.Report, rng *hx.Rng, o *hx.Opts, dS3, iS3 bool, faultAt stri
 				readFaulted := len(f.GetFail) > 0
 				f.Mu.Unlock()
 				what := fmt.Sprintf("%s: part %d of message %s (%s, %d octets) reads back %d octets (NIL=%v) that are not its own", desc, k+1, s.tok, p.cte, len(p.content), len(got), !found)
+				if r.Status() == "NO" && len(r.Untagged) == 0 {
+					// the read was reported as an error (Props.C15.read_fault_reported): right when the object store failed the
+					// read or the reader has none, wrong when nothing stood in the way
+					if readFaulted || (dS3 && !iS3) {
+						rep.Hit("read:error-reported")
+					} else {
+						rep.Violate("impl-violation", "read-back (Props.C15.read_fault_reported: an error only when the content cannot be read)", fmt.Sprintf("%s: FETCH %d BODY.PEEK[%d] of message %s answered %q although no read was failed and the reader has every backend the writer used", desc, s.seq, k+1, s.tok, r.Tagged), []string{"seq " + name})
+					}
+					continue
+				}
 				switch {
-				case readFaulted || (dS3 && !iS3):
-					// class predicate of finding C15-F2: the script failed a GET/HEAD, or the writer used S3 and the reader has none
-					rep.Finding("C15-F2", "a read fault / an object store the reader cannot reach yields silently empty content instead of an error: "+what, []string{"seq " + name})
-				case crossEnc:
+				case crossEnc && found && len(got) > 0:
 					rep.Finding("C15-F1", "cross-encoding de-duplication: "+what, []string{"seq " + name})
+				case readFaulted || (dS3 && !iS3):
+					// what finding C15-F2 was until the repair: a read that failed, answered OK with nothing or with something else
+					rep.Violate("impl-violation", "read-back (Props.C15.read_fault_reported: a failure while reading is an error, never empty or foreign content)", what+fmt.Sprintf("; the command was answered %q", r.Tagged), []string{"seq " + name})
 				default:
 					rep.Violate("impl-violation", "read-back (Props.C15.no_fault_readback_partial)", what, []string{"seq " + name})
 				}
 			}
 			// the whole message goes through the reconstruction, a different reader of the same blobs: every part's text, as
 			// it was submitted, is in it
-			whole := strings.Join(c.Cmd(fmt.Sprintf("FETCH %d BODY.PEEK[]", s.seq)).Untagged, "\n")
+			rw := c.Cmd(fmt.Sprintf("FETCH %d BODY.PEEK[]", s.seq))
+			whole := strings.Join(rw.Untagged, "\n")
+			if rw.Status() == "NO" && len(rw.Untagged) == 0 {
+				f.Mu.Lock()
+				readFaulted := len(f.GetFail) > 0
+				f.Mu.Unlock()
+				if readFaulted || (dS3 && !iS3) {
+					rep.Hit("read-whole:error-reported")
+				} else {
+					rep.Violate("impl-violation", "read-back of the whole message (Props.C15.read_fault_reported: an error only when the content cannot be read)", fmt.Sprintf("%s: FETCH %d BODY.PEEK[] of message %s answered %q although no read was failed", desc, s.seq, s.tok, rw.Tagged), []string{"seq " + name})
+				}
+				c.Close()
+				continue
+			}
 			for k, p := range s.parts {
 				enc := strings.TrimRight(p.encoded(), "\r\n")
 				if len(enc) == 0 || strings.Contains(whole, enc) {
@@ -398,9 +438,9 @@ func runSeq(rep *hx.Report, rng *hx.Rng, o *hx.Opts, dS3, iS3 bool, faultAt stri
 				f.Mu.Unlock()
 				what := fmt.Sprintf("%s: BODY[] of message %s does not contain the text of its part %d (%s, %d octets; BODY[] has %d octets)", desc, s.tok, k+1, p.cte, len(p.content), len(whole))
 				switch {
-				case readFaulted || (dS3 && !iS3):
-					rep.Finding("C15-F2", "a read fault / an object store the reader cannot reach yields silently empty content instead of an error: "+what, []string{"seq " + name})
 				case crossEnc:
+				case readFaulted || (dS3 && !iS3):
+					rep.Violate("impl-violation", "read-back of the whole message (Props.C15.read_fault_reported: a failure while reading is an error, never empty or foreign content)", what+fmt.Sprintf("; the command was answered %q", rw.Tagged), []string{"seq " + name})
 				default:
 					rep.Violate("impl-violation", "read-back of the whole message (Props.C15.no_fault_readback_partial)", what, []string{"seq " + name})
 				}
